@@ -110,7 +110,14 @@ def cases(d):
         # first must not change what the second gets
         cg["pre_lines"] = ["shared = " + cov.dict_src(cp["bins"])]
         cp["bins_expr"] = "shared"
-        cg["cps"].append(dict(cp, name="cp2"))
+        cp2 = dict(cp, name="cp2")
+        if d.chance(60):
+            # ... and the two coverpoints exclude different values: what the first one removes must not be missing from the second
+            cp2.pop("ignore", None)
+            cp2.pop("illegal", None)
+            if d.chance(50):
+                cp2["ignore"] = [{"name": "ig0", "items": gen_items(d, lo, hi, 2)}]
+        cg["cps"].append(cp2)
     return {"cg": cg, "enums": enums, "samples": samples}
 
 
@@ -135,7 +142,8 @@ def run_case(case, prop=PROPERTY):
     enums = case["enums"]
     t = cg["params"][0]["type"]
     tv = cov.type_values(t, enums)
-    reg, ign, ill = cov.ref_bins(cp, tv, cg["options"]["auto_bin_max"])
+    refs = {c_["name"]: cov.ref_bins(c_, tv, cg["options"]["auto_bin_max"]) for c_ in cg["cps"]}
+    reg, ign, ill = refs[cp["name"]]
     reset_library()
     try:
         ns = cov.build([cg], enums)
@@ -147,9 +155,9 @@ def run_case(case, prop=PROPERTY):
     info = {"nbins": len(reg)}
     for cname, m in models:
         h = cov.hits(m)
-        if [len(x) for x in h] != [len(reg), len(ign), len(ill)]:
+        if [len(x) for x in h] != [len(x) for x in refs[cname]]:
             return [V("bin_count", "regular/ignore/illegal bin counts differ from the reference", case,
-                      "coverpoint %s: library %s, reference %s" % (cname, [len(x) for x in h], [len(reg), len(ign), len(ill)]))], info
+                      "coverpoint %s: library %s, reference %s" % (cname, [len(x) for x in h], [len(x) for x in refs[cname]]))], info
     has_iff = bool(cp.get("iff"))
     for v, en in case["samples"]:
         before = [cov.hits(m) for _, m in models]
@@ -168,8 +176,9 @@ def run_case(case, prop=PROPERTY):
         gate = en if has_iff else 1
         for (cname, m), bef in zip(models, before):
             after = cov.hits(m)
-            for which, ref, b, a in (("regular", reg, bef[0], after[0]), ("ignore", ign, bef[1], after[1]),
-                                     ("illegal", ill, bef[2], after[2])):
+            reg_, ign_, ill_ = refs[cname]
+            for which, ref, b, a in (("regular", reg_, bef[0], after[0]), ("ignore", ign_, bef[1], after[1]),
+                                     ("illegal", ill_, bef[2], after[2])):
                 exp = [(1 if (gate and v in s) else 0) for s in ref]
                 got = [x - y for x, y in zip(a, b)]
                 if got != exp:
